@@ -78,6 +78,8 @@ def main():
     if pid not in registry.PROPS:
         print('INCONCLUSIVE property=%s reason=not-registered'%pid); return 2
     spec=registry.PROPS[pid]
+    # an independent second solver (cvc5) re-decides a sample of the obligation queries (every 40th in the quick tier, every 10th in the thorough tier)
+    os.environ.setdefault('VERIF_SECOND_SOLVER_RATE','40' if tier=='quick' else '10')
     evid={'property_id':pid,'tier':tier,'seed':seed,'level':'model_checking','coverage':{},'assumptions':list(spec.get('assumptions',[])),'wall_s':0.0,'violations':0}
     inconclusive=[]; lines=[]
     try:
@@ -94,7 +96,7 @@ def main():
     cov={'states':0,'transitions':0,'traces_validated_against_impl':0,'samples':[],'exhaustive':False,
          'obligation_details':[], 'obligations':0, 'discharged':0, 'functions_encoded':{}, 'models_and_stubs_invoked':{}, 'solver_s':0.0,'witnesses':{},
          'mir_source_digest':dg,'mir_dump_s':round(mir_s,2),'replay_build_s':round(build_s,2),'known_findings_matched':[],
-         'counterexamples_replayed':0}
+         'counterexamples_replayed':0,'second_solver':{'solver':'cvc5 1.0 on the SMT-LIB2 dump of sampled obligation queries','asked':0,'agree':0,'disagree':0,'undecided':0}}
     viol_unknown=[]; known_hit=collections.OrderedDict()
     for ob in spec['obligations']:
         modname,clsname,params=ob['module'],ob['cls'],dict(ob.get(tier,ob.get('quick',{})))
@@ -107,6 +109,7 @@ def main():
         cov['states']+=agg['paths']; cov['transitions']+=agg['queries']; cov['solver_s']+=agg['solver_s']
         for k,v in agg['fn_hashes'].items(): cov['functions_encoded'][k]=v
         for k,v in agg['used'].items(): cov['models_and_stubs_invoked'][k]=cov['models_and_stubs_invoked'].get(k,0)+v
+        for k,v in (agg.get('second') or {}).items(): cov['second_solver'][k]=cov['second_solver'].get(k,0)+v
         oc=collections.Counter(r['outcome'] for r in recs)
         wit=set(w for r in recs for w in r.get('wit',[]))
         missing=[w for w in agg['witnesses'] if w not in wit]
